@@ -611,6 +611,18 @@ Definition gen_tet_submap (cls : list nat) (j k : nat) : nat :=
         else:
             parts.append(f'(* {SECOND[k][1]}._uniform refines as {SECOND[k][2]} carrying the subdomains: same map as {SECOND[k][2]} *)')
             eff[k] = eff[{'tri2': 'tri', 'quad2': 'quad', 'tet2': 'tet', 'hex2': 'hex'}[k]]
+    # Mesh.refined: the dispatch, emitted from the statements tr_refined() has just verified one by one:
+    #   if np.ndim(times_or_ix) == 0: for _ in range(times_or_ix): <uniform step>      else: marked = np.asarray(...);
+    #   bool -> np.nonzero(marked)[0]; empty -> astype(int32) (same indices); m._adaptive(marked)
+    parts.append('''
+(* Mesh.refined(times_or_ix): scalar -> that many passes of the uniform loop body; otherwise the selection is normalised
+   (boolean mask -> np.nonzero(mask)[0]; an empty selection only changes dtype) and handed to _adaptive *)
+Definition gen_refined_dispatch {M : Type} (ustep : M -> M) (adapt : list nat -> M -> M) (arg : rarg) (m : M) : M :=
+  match arg with
+  | RScalar n => Nat.iter (Z.to_nat n) ustep m
+  | RIndex ix => adapt ix m
+  | RMask b => adapt (filter (fun k => nth k b false) (seq 0 (length b))) m
+  end.''')
     parts.append('''
 (* packaging of the pieces above *)
 Definition mk_spec tpls pb (oe of_ oc : nat -> nat -> nat -> nat) : spec :=
